@@ -120,6 +120,7 @@ package service
 //@ func TxPool.MarkExecuted
 //@   property C17
 //@   requires pool != nil && header != nil && pool.received != nil && pool.evictedTxs != nil && typeid(pool.executed) != 0 && typeid(pool.batch) != 0 && txPoolLogger != nil
+//@   requires [io!init] ioReliable()
 //@   requires [batch]   @select(ghost(btarget), ref(pool.batch)) == ref(pool.executed) && @select(ghost(bsize), ref(pool.batch)) == 0 && forall k Bytes :: !@select(@select(ghost(bpend), ref(pool.batch)), k)
 //@   requires [inputs]  (forall i int :: 0 <= i && i < len(receipts) ==> receipts[i] != nil) && (forall i int :: 0 <= i && i < len(txs) ==> txs[i] != nil)
 //@   requires [present] forall i int :: 0 <= i && i < len(receipts) ==> exists j int :: 0 <= j && j < len(txs) && txs[j].Hash == receipts[i].TxHash
